@@ -98,7 +98,7 @@ pub fn run_seq<V: Clone + Debug + Hash + Eq + Send + Sync + 'static>(
     step: impl Fn(&V, usize) -> Result<Option<V>, String> + Send + Sync + Clone + 'static,
 ) {
     if let Some((c, _)) = &ctx.replay {
-        if c != name {
+        if !crate::core::replay_matches(c, name) {
             return;
         }
     }
